@@ -73,3 +73,17 @@ def replay_iso0_two(pin, pans):
         if res[0]:
             return True, 'card %d (%s): %s' % (k + 1, pan, res[1]), 'C13/iso0-second-card' if 'layout' in (res[2] or '') else res[2]
     return res
+
+
+def replay_enc_history(cls, pin, pan, key, refused, direction):
+    from cardutil import pinblock
+    C = getattr(pinblock, cls)
+    for d in (['encrypt', 'decrypt'] if direction == 'both' else [direction]):
+        try:
+            getattr(C, d)(key, bytes.fromhex(refused))
+        except ValueError:
+            pass
+    res = replay_enc(cls, pin, pan, key)
+    if res[0]:
+        return True, 'after %s() refused %d bytes under the same key: %s' % (direction, len(refused) // 2, res[1]), 'C13/enc-history'
+    return res
